@@ -12,12 +12,33 @@ def rot13c (c : Char) : Char :=
   else if c.isUpper then Char.ofNat ((c.toNat - 65 + 13) % 26 + 65)
   else c
 
+/-- the four length-changing case mappings of CPython that the correspondence uses
+    (`'ß'.upper() == 'SS'`, `'ﬁ'.upper() == 'FI'`, `'ǰ'.upper() == 'J' + U+030C`,
+    `'İ'.lower() == 'i' + U+0307`); `str.swapcase` applies the same special casing -/
+def upperSpecial (c : Char) : Option Text :=
+  if c.toNat = 0xDF then some ['S', 'S']
+  else if c.toNat = 0xFB01 then some ['F', 'I']
+  else if c.toNat = 0x1F0 then some ['J', Char.ofNat 0x30C]
+  else none
+
+def lowerSpecial (c : Char) : Option Text :=
+  if c.toNat = 0x130 then some ['i', Char.ofNat 0x307] else none
+
 def tfAscii : Transform → Text → Text
   | .rot13 => fun t => t.map rot13c
-  | .lower => fun t => t.map fun c => if c.isUpper then c.toLower else c
-  | .upper => fun t => t.map fun c => if c.isLower then c.toUpper else c
-  | .swap => fun t => t.map fun c =>
-      if c.isLower then c.toUpper else if c.isUpper then c.toLower else c
+  | .lower => fun t => t.flatMap fun c =>
+      match lowerSpecial c with
+      | some r => r
+      | none => [if c.isUpper then c.toLower else c]
+  | .upper => fun t => t.flatMap fun c =>
+      match upperSpecial c with
+      | some r => r
+      | none => [if c.isLower then c.toUpper else c]
+  | .swap => fun t => t.flatMap fun c =>
+      match upperSpecial c, lowerSpecial c with
+      | some r, _ => r
+      | none, some r => r
+      | none, none => [if c.isLower then c.toUpper else if c.isUpper then c.toLower else c]
 
 def env : Env := { isSpace := Gen.isSpace, reSpace := Gen.reSpace, tf := tfAscii }
 
